@@ -116,9 +116,12 @@ def api_oracle(res, rng):
             ops = [["set_rules_dir", C.RULES], ["set_preference", "BrailleCode", code], ["set_preference", "BrailleNavHighlight", style],
                    ["set_mathml", X.math(b)], ["get_braille", ""], ["get_spoken_text"], ["v_prefs_dump"]]
             plan = []
-            if rng.random() < 0.5:
+            if rng.random() < 0.7:
                 ops.append(["do_navigate_command", rng.choice(["ZoomIn", "MoveNext", "ZoomInAll"])])
                 plan.append(("nav",))
+                if rng.random() < 0.5:
+                    ops.append(["do_navigate_command", rng.choice(["ZoomIn", "MoveNext", "MoveEnd"])])
+                    plan.append(("nav",))
             ops.append(["get_navigation_mathml_id"])
             plan.append(("navid",))
             for nid in ids:
@@ -128,6 +131,9 @@ def api_oracle(res, rng):
             plan.append(("hb_unknown",))
             ops.append(["get_braille_position"])
             plan.append(("pos",))
+            # the braille of the navigation node alone: a query like the others (asked twice: the answers agree)
+            ops += [["get_navigation_braille"], ["get_navigation_braille"]]
+            plan += [("navbr", 1), ("navbr", 2)]
             positions = list(range(0, n + 2)) if res.tier == "thorough" or n <= 12 else sorted(set([0, n - 1, n, n + 1] + [rng.randrange(n) for _ in range(8)]))
             for p in positions:
                 ops.append(["get_navigation_node_from_braille_position", p])
@@ -156,6 +162,7 @@ def api_oracle(res, rng):
         sp0, dump0 = rs[5], rs[6]
         n = len(b0) if b0 is not None else 0
         navid_before = None
+        navbr_first = None
         for (st, x) in zip(plan, rs[7:7 + len(plan)]):
             kind = st[0]
             key = (code, style, kind)
@@ -165,7 +172,13 @@ def api_oracle(res, rng):
                 res.violation("%s panics (braille %s, highlight %s): %s" % (st, code, style, x["panic"]), dict(rep, op=st, observed=x))
                 nv += 1
                 continue
-            if kind == "navid":
+            if kind == "navbr":
+                if st[1] == 1:
+                    navbr_first = x
+                elif x != navbr_first:
+                    res.violation("get_navigation_braille asked twice gives %r and then %r" % (str(navbr_first)[:80], str(x)[:80]), dict(rep, op=st, observed=[navbr_first, x]))
+                    nv += 1
+            elif kind == "navid":
                 navid_before = x
             elif kind == "hb":
                 hb = x.get("ok")
